@@ -795,3 +795,78 @@ func runActionCmp(p *Program, x *ssa.BinOp, cl, ra *ssa.Function) (kind string, 
 	}
 	return "", nil, false
 }
+
+// ruleExhaustedOnlyByBudget (C13-R11): the stopTest("can't find a valid action") panic of executeAction is
+// reachable only by the retry counter running out. runAction classifies an overrun on an action's first draw as
+// 'skipped' as well; the retry then overruns on the action-key draw, outside runAction's filter, and the test case ends
+// as invalid data (MakeFuzz: skip). An exit to the panic decided by anything but the counter turns that exhausted
+// input into a failure.
+func ruleExhaustedOnlyByBudget(r *Run) {
+	p := r.P
+	ex := r.MustFn("(*stateMachine).executeAction")
+	if ex == nil {
+		return
+	}
+	rac := p.callsTo(ex, "runAction")
+	if len(rac) != 1 || innermostLoop(rac[0].Instr) == nil {
+		r.Undecided("executeAction#exit-to-failure", ex.Pos(), "expected one runAction call inside a retry loop")
+		return
+	}
+	l := innermostLoop(rac[0].Instr)
+	reachesPanic := map[*ssa.BasicBlock]bool{}
+	var mark func(b *ssa.BasicBlock)
+	for _, b := range p.body(ex) {
+		for _, in := range b.Instrs {
+			if pn, ok := in.(*ssa.Panic); ok && p.typeStr(panicType(pn)) == "stopTest" && !l.Body[b] {
+				reachesPanic[b] = true
+			}
+		}
+	}
+	mark = func(b *ssa.BasicBlock) {
+		for _, q := range b.Preds {
+			if !reachesPanic[q] && !l.Body[q] {
+				reachesPanic[q] = true
+				mark(q)
+			}
+		}
+	}
+	for b := range reachesPanic {
+		mark(b)
+	}
+	counterTerm := func(v ssa.Value) bool {
+		v = p.resolve(v)
+		if bo, ok := v.(*ssa.BinOp); ok && (bo.Op == token.ADD || bo.Op == token.SUB) {
+			if _, isK := constInt(p.resolve(bo.Y)); isK {
+				v = p.resolve(bo.X)
+			}
+		}
+		phi, ok := v.(*ssa.Phi)
+		return ok && phi.Block() == l.Header
+	}
+	n := 0
+	for b := range l.Body {
+		for _, s := range b.Succs {
+			if l.Body[s] || !reachesPanic[s] {
+				continue
+			}
+			n++
+			ok := false
+			if iff, isIf := b.Instrs[len(b.Instrs)-1].(*ssa.If); isIf {
+				if bo, isB := p.resolve(iff.Cond).(*ssa.BinOp); isB {
+					_, kx := constInt(p.resolve(bo.X))
+					_, ky := constInt(p.resolve(bo.Y))
+					ok = (counterTerm(bo.X) && ky) || (counterTerm(bo.Y) && kx)
+				}
+			}
+			pos := b.Instrs[len(b.Instrs)-1].Pos()
+			if iff, isIf := b.Instrs[len(b.Instrs)-1].(*ssa.If); isIf && pos == token.NoPos {
+				pos = p.resolve(iff.Cond).Pos()
+			}
+			r.Check("executeAction#exit-to-failure", pos, ok, "the retry loop leaves for the 'no valid action' failure only on its counter test",
+				"executeAction leaves the retry loop for the stopTest failure on a test other than its retry counter: an action skipped because the input ran out on its first draw (MakeFuzz) is then reported as a failure instead of being retried into the overrun that ends the test case as invalid")
+		}
+	}
+	if n == 0 {
+		r.Undecided("executeAction#exit-to-failure", ex.Pos(), "no exit of the retry loop reaches the stopTest panic")
+	}
+}
